@@ -53,8 +53,8 @@ SPEC = dict(
                "passes through haveParsedReplyHeaders() before any client can hit it (FwdState/StoreEntry life cycle; FTP/Gopher/WHOIS gateways and adapted (ICAP/eCAP) "
                "replies have their own paths); clientInterpretRequestHeaders() itself (it sets flags.auth from the Authorization header/URL userinfo and flags.cachable "
                "from maybeCacheable(): modelled by two lines of the harness); how ENTRY_REVALIDATE_ALWAYS is honoured on a hit (C12's kernel); Surrogate-Control handling",
-    # quick: both kernels on objects + four of the twelve text families; thorough: all twelve, one more symbolic byte each
-    entries=dict(quick=_Q + [e for e in _fam("quick") if e["name"] in ("c11_hdr_case", "c11_hdr_dup", "c11_hdr_req", "c11_hdr_auth_nocache")],
+    # quick: both kernels on objects + the twelve text families; thorough: the same with one more symbolic byte each
+    entries=dict(quick=_Q + _fam("quick"),
                  thorough=_Q + _fam("thorough")),
     timeout=dict(quick=400, thorough=1500),
     stubs=["HttpStateData, HttpRequest, StoreEntry, MemObject are zeroed raw memory of the real size (not constructed); set directly: HttpStateData::entry/request/"
